@@ -19,6 +19,10 @@ def main():
     subprocess.run(['rm', '-rf', COPY]); os.makedirs(COPY)
     subprocess.run('git -C /repo archive HEAD | tar -x -C %s && cp /repo/Cargo.lock %s/ && cd %s && git init -q && git add -A && git -c user.email=a@b -c user.name=x commit -qm base' % (COPY, COPY, COPY), shell=True, check=True)
     env = dict(os.environ, VERIF_REPO=COPY, VERIF_WORK=WORKDIR)
+    # the checks themselves run from a snapshot of /verif, so that work on /verif can go on while the matrix runs
+    SNAP = os.environ.get('SEED_VERIF_SNAPSHOT', '/tmp/verif-seed')
+    subprocess.run(['rm', '-rf', SNAP]); os.makedirs(SNAP)
+    subprocess.run('rsync -a --exclude .git --exclude ".work*" --exclude evidence %s/ %s/' % (HERE, SNAP), shell=True, check=True)
     rows = []
     for sid in ids:
         d = os.path.join(HERE, 'seeded', sid)
@@ -33,7 +37,7 @@ def main():
             for p in props:
                 if p not in claimed: det[p] = {'exit': None, 'note': 'property not claimed'}; continue
                 t0 = time.time()
-                r = subprocess.run(['./check', p, '--tier', 'quick', '--no-evidence'], cwd=HERE, capture_output=True, text=True, timeout=3600, env=env)
+                r = subprocess.run(['./check', p, '--tier', 'quick', '--no-evidence'], cwd=SNAP, capture_output=True, text=True, timeout=3600, env=env)
                 lines = [l for l in r.stdout.splitlines() if l.startswith(('VIOLATION', '  O', 'INCONCLUSIVE'))]
                 det[p] = {'exit': r.returncode, 'seconds': round(time.time() - t0), 'lines': lines[:6]}
         finally:
